@@ -298,13 +298,15 @@ func (c *Real64) Erfc(a ConstScalar) Scalar {
 }
 func (c *Real64) LogErfc(a ConstScalar) Scalar {
   x := a.GetFloat64()
-  t := math.Erfc(x)
   v0 := special.LogErfc(x)
+  // h = -d/dx log erfc(x) = 2/sqrt(pi) exp(-x^2)/erfc(x), evaluated on log
+  // scale so that exp(x^2) and erfc(x) can neither overflow nor underflow
+  h := 2.0/special.M_SQRTPI*math.Exp(-x*x - v0)
   f1 := func() float64 {
-    return -2.0/(math.Exp(a.GetFloat64()*a.GetFloat64())*special.M_SQRTPI*t)
+    return -h
   }
   f2 := func() float64 {
-    return 4.0*(math.Exp(x*x)*special.M_SQRTPI*t*x - 1)/(math.Exp(2*x*x)*math.Pi*t*t)
+    return h*(2.0*x - h)
   }
   return c.monadicLazy(a, v0, f1, f2)
 }
